@@ -310,6 +310,25 @@ def run_impl(case):
             hd = S.hierarchy_depth(copy.deepcopy(d0))
             if hd != dict(pl) or list(hd.keys()) != [pp for pp, _ in pl]:
                 fails.append('hierarchy_depth disagrees with dict_to_paths')
+            # the same tree built from another dictionary type has the same leaves (every helper descends into
+            # anything that is a dict)
+            import collections
+
+            def od(x):
+                return collections.OrderedDict((k, od(v)) for k, v in x.items()) if isinstance(x, dict) else x
+            d_od = od(d0)
+            try:
+                hd2, pl2 = S.hierarchy_depth(d_od), T.dict_to_paths((), d_od)
+                if list(hd2.keys()) != list(hd.keys()) or [pp for pp, _ in pl2] != [pp for pp, _ in pl] \
+                        or any(isinstance(v, dict) for v in hd2.values()):
+                    fails.append('dict-subclass: hierarchy_depth / dict_to_paths enumerate other leaves for the same '
+                                 'tree built from OrderedDicts')
+                for pp, vv in pl:
+                    if T.get_in(d_od, pp, missing) != vv:
+                        fails.append('dict-subclass: get_in reads something else in the OrderedDict tree')
+                        break
+            except Exception as e:
+                fails.append(f'dict-subclass: raised {exc_name(e)} on the tree built from OrderedDicts')
         return {'obs': obs, 'fails': fails}
     if kind == 'store':
         t = dec(case['t'])
